@@ -163,7 +163,9 @@ Definition check_sort : P (list Z) :=
   let less := if which =? 0 then less_ts else less_index in
   let key := fun u => if which =? 0 then (0, u_ts u) else (u_index u, u_ts u) in
   (* the key sequence of a Less-sorted permutation is unique; full records may tie *)
-  let j1 := list_eqb point_eqb (map key (isort_by less us)) (map key o) in
+  let key2 := fun u => if which =? 0 then 0 else u_ver u in   (* third component of the index order *)
+  let j1 := list_eqb point_eqb (map key (isort_by less us)) (map key o)
+            && list_eqb Z.eqb (map key2 (isort_by less us)) (map key2 o) in
   let j2 := perm_eqb us o && sorted_forb less o in
   ret (code_if j1 1 ++ code_if j2 2)%list.
 
